@@ -109,6 +109,25 @@ def classify_exc(e):
     return None
 
 
+def gen_under_resolved(rng, backend):
+    """constant-drive runs whose local exponentials need more Krylov vectors than allowed: emu-mps with a
+    reduced `max_krylov_dim` and coarse steps on a strongly interacting chain; emu-sv (fixed max 100) with
+    a huge dt·‖H‖. The ONLY acceptable outcomes are RecursionError or conservation within tolerance."""
+    if backend == "mps":
+        c = chain_case(rng.randint(4, 8), rng.uniform(5.5, 7.0), rng.uniform(6.0, 12.0), rng.uniform(-5.0, 5.0),
+                       rng.randint(3, 5), 1e-8)
+        dt = rng.choice([20.0, 40.0])
+        c["max_krylov_dim"] = rng.choice([4, 6, 8, 10, 10, 15, 30])
+    else:
+        c = chain_case(rng.randint(7, 9), rng.uniform(5.5, 7.0), rng.uniform(8.0, 12.0), rng.uniform(-5.0, 5.0),
+                       rng.randint(2, 3), 1e-5)
+        c["backend"] = "sv"
+        dt = rng.choice([300.0, 1000.0, 2000.0])
+    c["times"] = [dt * k for k in range(c["nsteps"] + 1)]
+    c["grid_kind"] = "under-resolved"
+    return c
+
+
 def run_case(case):
     from harness import compat
     from pulser.backend import StateResult, Energy, EnergySecondMoment
@@ -121,7 +140,8 @@ def run_case(case):
         res = compat.run_sv(data, compat.sv_config(observables=obs, krylov_tolerance=case["kt"]))
         norms = [float(s.data.norm()) for s in res.state]
     else:
-        res = compat.run_mps(data, compat.mps_config(observables=obs, precision=case["precision"], dt=10))
+        mk = {"max_krylov_dim": case["max_krylov_dim"]} if case.get("max_krylov_dim") else {}
+        res = compat.run_mps(data, compat.mps_config(observables=obs, precision=case["precision"], dt=10, **mk))
         norms = [float(s.norm()) for s in res.state]
     return dict(norm=norms, energy=[float(x) for x in res.energy], e2=[float(x) for x in res.energy_second_moment])
 
@@ -193,7 +213,9 @@ def check(rep: Report, tier: str, seed: int) -> None:
     rep.rule = ("cases = piecewise-constant SequenceData (1-3 windows of 2-4 steps with identical drive rows; global or "
                 "per-atom drives with Omega >= 1 rad/us; chain register with van-der-Waals U; uniform and non-uniform step "
                 "lengths) on emu-sv (2-10 atoms, krylov_tolerance 1e-8/1e-10) and emu-mps (2-12 atoms, precision 1e-5/1e-6, "
-                "dt = 10 ns). non-trivial = window of >= 3 steps or >= 2 windows")
+                "dt = 10 ns); plus an under-resolved stream (emu-mps max_krylov_dim 4-30 with 20/40 ns steps on a 5.5-7 um chain, "
+                "emu-sv 7-9 atoms with 0.3-2 us steps) where the only acceptable outcomes are RecursionError or conservation. "
+                "non-trivial = window of >= 3 steps or >= 2 windows")
     rep.assumptions = [
         "emu-sv Krylov step within 10*krylov_tolerance (C07) — assumed in FullClaim, validated by the drift oracle",
         "emu-mps TDVP: energy conservation of the projected dynamics is NOT proved; norm/energy/second-moment drift is "
@@ -228,6 +250,27 @@ def check(rep: Report, tier: str, seed: int) -> None:
             worst[backend] = max(worst[backend], w)
             if msg:
                 rep.fail(f"[{backend}] " + msg, ic.ser_case(case, result=r))
+    # under-resolved stream: refuse (RecursionError) or conserve — never a silently non-unitary step
+    for backend, count in ([("mps", 10), ("sv", 6)] if tier == "quick" else [("mps", 150), ("sv", 60)]):
+        for _ in range(count):
+            case = gen_under_resolved(rng, backend)
+            rep.case(key=("under", backend, case["n"], case["times"][1], case.get("max_krylov_dim"), case["omega"][0][0]),
+                     nontrivial=True)
+            try:
+                r = run_case(case)
+            except RecursionError:
+                rep.hist(f"under_resolved_{backend}", "refused:RecursionError")
+                continue
+            except Exception as e:
+                k = classify_exc(e)
+                rep.hist("exception_class", k)
+                rep.fail(f"real {backend} back-end raised {type(e).__name__}: {e}", ic.ser_case(case), klass=k)
+                continue
+            rep.hist(f"under_resolved_{backend}", "completed")
+            msg, w = oracle(case, r)
+            worst[backend] = max(worst[backend], w)
+            if msg:
+                rep.fail(f"[{backend}, under-resolved Krylov space, run was not refused] " + msg, ic.ser_case(case, result=r))
     rep.extra["oracle_worst_over_allowed"] = {k: round(v, 5) for k, v in worst.items()}
     # replay of the recorded witness of the known finding on the real code (DESIGN §2.4)
     try:
@@ -269,6 +312,8 @@ def replay(rep: Report, path: str) -> int:
         case = f["data"]
         try:
             msg = oracle(case, run_case(case))[0]
+        except RecursionError:
+            msg = None      # refusing an under-resolved step is an acceptable outcome
         except Exception as e:
             msg = f"raised {type(e).__name__}: {e}"
         print("replay:", msg or "property holds on this input now")
